@@ -242,9 +242,10 @@ func CheckLogC19(c Config, log []vsched.Event) []string {
 			continue
 		}
 		closes[e.Ch]++
-		if len(inClosed) != len(c.Items) || len(inEvents) != len(c.Items)+total {
+		nIn := len(c.Items) - len(c.Nils) // nil arguments are never closed (nor received from)
+		if len(inClosed) != nIn || len(inEvents) != nIn+total {
 			bad = append(bad, fmt.Sprintf("%s closed although only %d of %d inputs were ever closed / %d of %d items taken",
-				e.Ch, len(inClosed), len(c.Items), len(inEvents)-len(inClosed), total))
+				e.Ch, len(inClosed), nIn, len(inEvents)-len(inClosed), total))
 			continue
 		}
 		for _, j := range inEvents {
@@ -265,8 +266,9 @@ func CheckLogC19(c Config, log []vsched.Event) []string {
 // CheckDo checks the clauses of C20 on the outcome and the step log.
 func CheckDo(c Config, o *Outcome, log []vsched.Event) []string {
 	var bad []string
+	bad = append(bad, o.Extra...)
 	if !o.DoRet {
-		return []string{"Do did not return"}
+		return append(bad, "Do did not return")
 	}
 	for i, v := range o.DoVals {
 		if v != DoVal(i) {
